@@ -67,7 +67,11 @@ def run(ck):
     cp = facts.fn(T + "copy")
     ck.need(len(cp.params) == 4, "C06: TunnelStateData::copy signature changed")
     plen, pfrom, pto, pcb = [p["d"] for p in cp.params]
-    for s in ck.sites(ck.flow(cp), ev_call(C + "write"), "to.write()", 1):
+    wsites = ck.sites(ck.flow(cp), ev_call(C + "write"), "to.write()", 0)
+    if not wsites:
+        ck.violation("W1.copy-body", "W1|copy-body|no-Connection::write", cp.where(cp.line), "copy() no longer hands the relayed bytes to Connection::write() of `to` (the write would not be recorded "
+                     "as that side's pending writer, so finishWritingAndDelete() may close the side while relayed bytes are still unwritten)")
+    for s in wsites:
         x = E.strip(s.ev["x"])
         a = x["a"]
         a0 = E.strip(a[0])
@@ -156,5 +160,27 @@ def run(ck):
                 ck.ok("W5.other-side", s.where(), "%s lets the %s side finish writing" % (fname, other.split("::")[-1]))
             else:
                 ck.violation("W5.other-side", "W5|%s|wrong-side" % fname, s.where(), "%s passes %s to finishWritingAndDelete" % (fname, E.key(E.strip(s.ev["x"])["a"][0])))
+    ck.rule("W6 hand-over: in clientProcessRequest the request-body machinery (ConnStateData::expectRequestBody / handleRequestBodyData, which move bytes out of inBuf "
+            "into a BodyPipe the tunnel never reads) is reached only on paths where request->method == METHOD_CONNECT evaluated false; paths where it evaluated true pass "
+            "context->mayUseConnection(true) and are pruned at `!context->mayUseConnection()` (setter followed by getter on the same stream); on the CONNECT path "
+            "conn->flags.readMore is cleared so that bytes after the CONNECT header stay in inBuf for tunnelStartShoveling()")
+    cs = ck.facts(["src/client_side.cc"], whole=False)
+    cpr = cs.fn("clientProcessRequest")
+    mcode = cs.enum("Http::_method_t")["METHOD_CONNECT"]
+    is_connect = E.m_cmp("==", E.m_is_mem("HttpRequest::method"), E.m_const(mcode))
+    muc_get = E.M(lambda t: E.strip(t).get("k") == "call" and E.strip(t).get("f") == "Http::Stream::mayUseConnection" and not E.strip(t).get("a"), "mayUseConnection()")
+    muc_set = ev_call("Http::Stream::mayUseConnection", arg={0: E.m_const(1)}, nargs=1)
+
+    def prune(b, lab, imp, env, fs):
+        if env.get("#muc") == 1 and any(muc_get(t) and v is False for t, v in imp):
+            return False
+        return True
+    body = ev_call({"ConnStateData::expectRequestBody", "ConnStateData::handleRequestBodyData"})
+    ck.require_any("W6.connect-skips-body", cpr, body, [(is_connect, False)], "request-body setup", min_sites=2,
+                   why="(a CONNECT with Content-Length/chunked framing would have its early tunnel bytes moved into a BodyPipe nobody reads: the server misses them)",
+                   markers={"muc": muc_set}, track_markers=["muc"], on_edge=prune)
+    ck.require_response("W6.connect-hands-over", cpr, is_connect, True, muc_set, "mayUseConnection(true)")
+    ck.require_response("W6.connect-hands-over", cpr, is_connect, True, ev_assign("ConnStateData::(anonymous struct)::readMore", E.m_const(0)), "flags.readMore = false")
+
     ck.assume("payload equality and delivery under arbitrary segmentation are not decided; Comm::Write/comm_read deliver what they are given; "
               "delay pools' bytesWanted() <= its upper bound; TLS-bumped and pre-read (preReadClientData/ServerData) byte accounting is only checked through W1/W4")
